@@ -132,6 +132,19 @@ pub struct CaseOut {
     pub violations: Vec<(String, String, Value)>,
     pub sample: Option<(String, Value)>,
     pub counters: Vec<(String, u64)>,
+    /// (thread CPU ns, largest allocation request, peak live bytes) measured by the module around the
+    /// code under test only (input generation excluded); overrides the wrapper's own measurement
+    pub measured: Option<(u64, usize, usize)>,
+}
+
+/// Measure a closure: (result, cpu ns, largest request, peak live above the starting level).
+pub fn measure<T>(f: impl FnOnce() -> T) -> (T, u64, usize, usize) {
+    let mark = alloc_mark();
+    let c0 = thread_cpu_ns();
+    let r = f();
+    let cpu = thread_cpu_ns().saturating_sub(c0);
+    let (mx, peak) = mark.read();
+    (r, cpu, mx, peak)
 }
 
 pub struct CaseDesc {
@@ -344,6 +357,7 @@ pub fn child_main(args: &Args) {
                     emit("violation", sig, detail, case);
                 }
                 if out.check_resources {
+                    let (cpu, max_req, peak) = out.measured.unwrap_or((cpu, max_req, peak));
                     max_alloc_seen = max_alloc_seen.max(max_req);
                     max_cpu_seen = max_cpu_seen.max(cpu);
                     let n = out.input_len;
